@@ -6,7 +6,7 @@ CONSTANTS
   FnModes = {"normal"}
   MaxFns = 1
   Depth = 4
-  InputOps = {"set_input", "clear_input"}
+  InputOps = {"set_input", "clear_input", "set_input_self"}
   Entries = {"run", "call"}
   TracerStyles = {"none"}
   Threadeds = {FALSE}
